@@ -14,7 +14,7 @@ def gen_line(rng):
         if k == "date":
             # a format list whose formats parse the same text differently: what one object reads must not depend on what
             # another object sharing the Field read before
-            fd = {"k": "date", "size": 10, "start": pos, "formats": rng.choice([["%d/%m/%Y", "%m/%d/%Y"], ["%m/%d/%Y", "%d/%m/%Y"]]), "aslist": True}
+            fd = {"k": "date", "size": 10, "start": pos, "formats": rng.choice([["%d/%m/%Y", "%m/%d/%Y"], ["%m/%d/%Y", "%d/%m/%Y"], ["%d/%m/%Y"], ["%m/%d/%Y"], ["%d/%m/%Y", "%Y/%m/%d"]]), "aslist": True}
         fs.append(fd)
         pos += fd["size"]
     return fs
